@@ -313,12 +313,12 @@ static void ossl_stream_hash(const EVP_CIPHER *ci, int enc, const uint8_t *key, 
 /* ---- AAD whose bit length (>= 2^29 bytes) or byte length (>= 2^32 bytes) does not fit 32 bits; aad_len is a uint64_t in the API ---- */
 static void run_gcm_aad_huge(int thorough)
 {
-        static const uint64_t aadlens[] = { (1ull << 29) + 33, (1ull << 32) + 4113 };
+        static const uint64_t aadlens[] = { (1ull << 29) + 33, (1ull << 32) + 4113, 1ull << 32 };       /* the last: low 32 bits all zero */
         uint8_t *aad = alias_in(aadlens[1] + 4096);
         uint8_t key[32], iv[16] __attribute__((aligned(16))), msg[64], ect[64], etag[16], ct[64], tag[16];
         rng_t r; rng_seed(&r, g_seed ^ 0xaad6e); rng_fill(&r, key, 32); rng_fill(&r, iv, 16); rng_fill(&r, msg, 64);
         char key_[160];
-        for (int li = 0; li < 2; li++) for (int ks = 0; ks < 2; ks++) {
+        for (int li = 0; li < 3; li++) for (int ks = 0; ks < 2; ks++) {
                 uint64_t al = aadlens[li]; uint32_t len = 37;
                 int computed = 0;
                 for (int fi = 0; fi < NGCMFAM; fi++) {
@@ -353,7 +353,7 @@ static void run_gcm_aad_huge(int thorough)
                                         out_viol(g_prop, key_, rbuf, "%s with aad_len=%llu, len=%u: %s differs from OpenSSL (tag %s expected %s)", shape ? "init/update/finalize" : "one-shot", (unsigned long long) al, len, memcmp(ct, ect, len) ? "ciphertext" : "tag", g, e);
                                 }
                         }
-                        feat(mix64(0xaad6e, (uint64_t) fi * 4 + (uint64_t) ks * 2 + (uint64_t) li));
+                        feat(mix64(0xaad6e, (uint64_t) fi * 8 + (uint64_t) ks * 4 + (uint64_t) li));
                         char n[64]; snprintf(n, sizeof n, "cases_%s", f->name); out_count(n, 1);
                 }
         }
@@ -361,7 +361,7 @@ static void run_gcm_aad_huge(int thorough)
 
 static void run_huge2(const char *what, int thorough)
 {
-        uint64_t len = !strcmp(what, "cbchuge") ? (1ull << 32) + 4096 + 48 : (1ull << 32) + 10;     /* CBC: beyond 2^32 by more than one pass of every unrolled loop, and not a multiple of 8 or 16 blocks */
+        uint64_t len = !strcmp(what, "cbchuge") ? (1ull << 32) + 4096 + 48 : (1ull << 32) + 289;     /* CBC: beyond 2^32 by more than one pass of every unrolled loop, and not a multiple of 8 or 16 blocks */
         uint8_t *in = alias_in(len + 4096), *out = aligned_alloc(4096, (len + 8191) & ~4095ull);
         if (!out) out_err("cannot allocate %llu bytes", (unsigned long long) len);
         uint8_t key[32], iv[16] __attribute__((aligned(16))), aad[20], eh[32], gh[32], etag[16], tag[16];
@@ -378,15 +378,24 @@ static void run_huge2(const char *what, int thorough)
                                 ref_aes_t a; ref_aes_expand(&a, key, ks_bits2[ks]);
                                 memset(&kd, 0, sizeof kd); memcpy(&kd, a.enc, (size_t) 16 * (a.nr + 1)); f->s.precomp[ks](&kd);
                                 /* a pending partial block, then one update of exactly 2^32 bytes, then the rest */
-                                LABEL("gcm%d %s stream updates 1 + 2^32 + 9", ks_bits2[ks], f->name);
+                                LABEL("gcm%d %s stream updates 1 + 2^32 + 288", ks_bits2[ks], f->name);
                                 f->s.init[ks](&kd, &ctx, iv, aad, 20);
                                 f->s.upd[ks][0][0](&kd, &ctx, out, in, 1); f->s.upd[ks][0][0](&kd, &ctx, out + 1, in + 1, 1ull << 32); f->s.upd[ks][0][0](&kd, &ctx, out + 1 + (1ull << 32), in + 1 + (1ull << 32), len - 1 - (1ull << 32));
                                 f->s.fin[ks][0](&kd, &ctx, tag, 16);
                                 cur_label[0] = 0;
                                 out_count("gcm_calls", 1); out_count("gcm_update_calls", 3); out_count("gcm_huge_calls", 1);
                                 sha256_of(out, len, gh);
-                                if (memcmp(gh, eh, 32) || memcmp(tag, etag, 16)) { snprintf(key_, sizeof key_, "gcm-huge-update-mismatch %d %s", ks_bits2[ks], f->name); out_viol(g_prop, key_, rbuf, "updates of 1, 2^32 and 9 bytes: %s differs from OpenSSL", memcmp(gh, eh, 32) ? "ciphertext" : "tag"); }
+                                if (memcmp(gh, eh, 32) || memcmp(tag, etag, 16)) { snprintf(key_, sizeof key_, "gcm-huge-update-mismatch %d %s", ks_bits2[ks], f->name); out_viol(g_prop, key_, rbuf, "updates of 1, 2^32 and 288 bytes: %s differs from OpenSSL", memcmp(gh, eh, 32) ? "ciphertext" : "tag"); }
                                 else {
+                                        /* the same message in one call (more than 2^32 bytes, a 16..31-block tail after the last full pass of the widest loop) */
+                                        memset(out + len - 512, 0xEE, 512); memset(tag, 0, 16);
+                                        LABEL("gcm%d %s one-shot len=2^32+289", ks_bits2[ks], f->name);
+                                        f->s.one[ks][0][0](&kd, &ctx, out, in, len, iv, aad, 20, tag, 16);
+                                        cur_label[0] = 0;
+                                        out_count("gcm_calls", 1); out_count("gcm_huge_calls", 1);
+                                        sha256_of(out, len, gh);
+                                        if (memcmp(gh, eh, 32) || memcmp(tag, etag, 16)) { snprintf(key_, sizeof key_, "gcm-huge-oneshot-mismatch %d %s", ks_bits2[ks], f->name); out_viol(g_prop, key_, rbuf, "one call of 2^32+289 bytes: %s differs from OpenSSL", memcmp(gh, eh, 32) ? "ciphertext" : "tag"); }
+                                        else {
                                         /* the ciphertext just verified, decrypted in place: a carried partial block (5 bytes), one update of 3 GiB + 11 bytes, the rest */
                                         uint64_t big = (3ull << 30) + 11;
                                         LABEL("gcm%d %s stream decrypt updates 5 + (3 GiB + 11) + rest", ks_bits2[ks], f->name);
@@ -398,6 +407,7 @@ static void run_huge2(const char *what, int thorough)
                                         out_count("gcm_calls", 1); out_count("gcm_update_calls", 3); out_count("gcm_huge_calls", 1);
                                         uint64_t d = 0; for (uint64_t o = 0; o < len && d == 0; o += 1u << 26) { uint64_t k = len - o > (1u << 26) ? (1u << 26) : len - o; if (memcmp(out + o, in + o, k)) { d = o; while (out[d] == in[d]) d++; d++; } }
                                         if (d || memcmp(tag, etag, 16)) { snprintf(key_, sizeof key_, "gcm-huge-update-dec-mismatch %d %s", ks_bits2[ks], f->name); out_viol(g_prop, key_, rbuf, "decrypt updates of 5, 3 GiB + 11 and the rest: %s differs (first wrong byte %llu)", d ? "plaintext" : "tag", (unsigned long long) (d ? d - 1 : 0)); }
+                                        }
                                 }
                                 feat(mix64(0x4095f, (uint64_t) fi * 2 + (uint64_t) ks));
                                 char n[64]; snprintf(n, sizeof n, "cases_%s", f->name); out_count(n, 1);
